@@ -36,6 +36,8 @@ structure SRow where
   author : Key
   body : Body
   sigOk : Bool
+  /-- `_local_id.is_some()`: the row is known to be stored (never set on the wire) -/
+  stored : Bool := false
 deriving Repr, DecidableEq
 
 structure PEdge where
@@ -200,5 +202,362 @@ def prepareNewRoom (r : RoomNode) : Except RErr RoomT :=
        r.authNodes.all (fun a => adm a.node && a.userNodes.all adm && a.rightNodes.all adm &&
          a.userAdminNodes.all adm)
     then .ok room else .error .notAuthorised
+
+/-! ### a room that is already known: `prepare_room_with_history` -/
+
+/-- deviations of the code from C07; `true` = the check is missing (as in /repo) -/
+structure Defects where
+  /-- #22 the references that place an entry in a list are only signature-checked: their author,
+      label and source entity are never compared with the entry's author and the list
+      (room_node.rs:37-90, 203-277) -/
+  placingEdgeUnchecked : Bool
+  /-- the candidate's room row replaces the stored one without any author, date or entity check
+      (room_node.rs:529, 97-98) -/
+  roomRowUnchecked : Bool
+  /-- #33 the user-admin entries of a group that is new to a known room are not checked at all
+      (room_node.rs:909-926) -/
+  newGroupUserAdminUnchecked : Bool
+deriving Repr, DecidableEq
+
+def Defects.asImplemented : Defects :=
+  { placingEdgeUnchecked := true, roomRowUnchecked := true, newGroupUserAdminUnchecked := true }
+def Defects.none : Defects :=
+  { placingEdgeUnchecked := false, roomRowUnchecked := false, newGroupUserAdminUnchecked := false }
+
+/-- `Edge::eq`: every field but the signature -/
+def edgeEq (a b : PEdge) : Bool :=
+  a.src = b.src && a.srcEnt = b.srcEnt && a.label = b.label && a.dst = b.dst && a.cdate = b.cdate &&
+  a.author = b.author
+
+/-- `Node::eq`: every field but the signature and the local id -/
+def rowEq (a b : SRow) : Bool :=
+  a.id = b.id && a.ent = b.ent && a.room = b.room && a.cdate = b.cdate && a.mdate = b.mdate &&
+  a.author = b.author && a.body = b.body
+
+/-- stable insertion sort, ascending in `key` (`sort_by(|a, b| a.key.cmp(&b.key))`) -/
+def insAsc {α : Type} (key : α → Int) (x : α) : List α → List α
+  | [] => [x]
+  | y :: ys => if key x ≤ key y then x :: y :: ys else y :: insAsc key x ys
+
+def sortAsc {α : Type} (key : α → Int) (l : List α) : List α := l.foldr (insAsc key) []
+
+/-- "ensure that existing edges exist in the candidate": the stored references the candidate lacks
+    are pushed at the end, in the stored order -/
+def mergeEdges : List PEdge → List PEdge → List PEdge
+  | [], cand => cand
+  | o :: rest, cand => mergeEdges rest (if cand.any (edgeEq · o) then cand else cand ++ [o])
+
+/-- stored entries: present in the candidate (first entry with that id) → must be equal, and the
+    candidate's copy is marked as stored; absent → pushed at the end -/
+def markStored (id : Nat) : List SRow → List SRow
+  | [] => []
+  | c :: cs => if c.id = id then { c with stored := true } :: cs else c :: markStored id cs
+
+def mergeRows : List SRow → List SRow → Except RErr (List SRow)
+  | [], cand => .ok cand
+  | o :: rest, cand =>
+    match cand.find? (·.id = o.id) with
+    | some c => if rowEq c o then mergeRows rest (markStored o.id cand) else .error .mutated
+    | none => mergeRows rest (cand ++ [o])
+
+def isNew (old : List SRow) (n : SRow) : Bool := !old.any (·.id = n.id)
+
+/-- new admin entries, in the (sorted) order of the merged list: the author must be an admin at the
+    entry's date in the room as extended so far; the entry is then added to that room -/
+def checkNewAdmins (old : List SRow) : RoomT → List SRow → Except RErr RoomT
+  | room, [] => .ok room
+  | room, n :: rest =>
+    if isNew old n then
+      if room.isAdmin n.author n.mdate then
+        match parseUser n with
+        | .error e => .error e
+        | .ok u =>
+          match liftErr (room.addAdmin u) with
+          | .error e => .error e
+          | .ok room' => checkNewAdmins old room' rest
+      else .error .notAuthorised
+    else checkNewAdmins old room rest
+
+def checkNewUserAdmins (room : RoomT) (old : List SRow) : Auth → List SRow → Except RErr Auth
+  | au, [] => .ok au
+  | au, n :: rest =>
+    if isNew old n then
+      if room.isAdmin n.author n.mdate then
+        match parseUser n with
+        | .error e => .error e
+        | .ok u =>
+          match liftErr (au.addUserAdmin u) with
+          | .error e => .error e
+          | .ok au' => checkNewUserAdmins room old au' rest
+      else .error .notAuthorised
+    else checkNewUserAdmins room old au rest
+
+/-- `prepare_auth_with_history`; `none` stands for the `expect` that panics when the group is stored
+    but not loaded -/
+def prepareAuthWithHistory (room : RoomT) (old new : AuthNode) : Option (Except RErr (AuthNode × Bool)) :=
+  match room.getAuth old.node.id with
+  | none => none
+  | some au0 => some <|
+    let uaEdges := sortAsc (·.cdate) (mergeEdges old.userAdminEdges new.userAdminEdges)
+    match mergeRows old.userAdminNodes new.userAdminNodes with
+    | .error e => .error e
+    | .ok ua0 =>
+      let uaNodes := sortAsc (·.mdate) ua0
+      match checkNewUserAdmins room old.userAdminNodes au0 uaNodes with
+      | .error e => .error e
+      | .ok au1 =>
+        let uEdges := sortAsc (·.cdate) (mergeEdges old.userEdges new.userEdges)
+        match mergeRows old.userNodes new.userNodes with
+        | .error e => .error e
+        | .ok u0 =>
+          let uNodes := sortAsc (·.mdate) u0
+          if !(uNodes.all fun n => !isNew old.userNodes n || au1.canAdminUsers n.author n.mdate ||
+                room.isAdmin n.author n.mdate) then .error .notAuthorised
+          else
+            let rEdges := sortAsc (·.cdate) (mergeEdges old.rightEdges new.rightEdges)
+            match mergeRows old.rightNodes new.rightNodes with
+            | .error e => .error e
+            | .ok r0 =>
+              let rNodes := sortAsc (·.mdate) r0
+              if !(rNodes.all fun n => !isNew old.rightNodes n || room.isAdmin n.author n.mdate) then
+                .error .notAuthorised
+              else
+                let upd := uaNodes.any (isNew old.userAdminNodes) || uNodes.any (isNew old.userNodes) ||
+                  rNodes.any (isNew old.rightNodes)
+                .ok ({ new with userAdminEdges := uaEdges, userAdminNodes := uaNodes, userEdges := uEdges,
+                                userNodes := uNodes, rightEdges := rEdges, rightNodes := rNodes }, upd)
+
+/-- `prepare_new_auth`: a group that is new to a known room -/
+def prepareNewAuth (d : Defects) (room : RoomT) (a : AuthNode) : Except RErr Unit :=
+  match a.parse with
+  | .error e => .error e
+  | .ok au =>
+    if !(a.userNodes.all fun n => au.canAdminUsers n.author n.mdate) then .error .notAuthorised
+    else if !(a.rightNodes.all fun n => room.isAdmin n.author n.mdate) then .error .notAuthorised
+    else if !d.newGroupUserAdminUnchecked && !(a.userAdminNodes.all fun n => room.isAdmin n.author n.mdate) then
+      .error .notAuthorised
+    else .ok ()
+
+/-- the group found by `iter_mut().find(..)` is mutated in place: the first one with that id -/
+def replaceAuth (id : Nat) (n2 : AuthNode) : List AuthNode → List AuthNode
+  | [] => []
+  | a :: rest => if a.node.id = id then n2 :: rest else a :: replaceAuth id n2 rest
+
+/-- the loop over the stored groups: a group the candidate lacks is pushed; a newer group row needs
+    an admin author; an older or equal one is replaced by the stored row -/
+def mergeAuths (room : RoomT) : List AuthNode → List AuthNode → Bool → Option (Except RErr (List AuthNode × Bool))
+  | [], cand, upd => some (.ok (cand, upd))
+  | o :: rest, cand, upd =>
+    match cand.find? (·.node.id = o.node.id) with
+    | none => mergeAuths room rest (cand ++ [o]) upd
+    | some n =>
+      let newer := decide (o.node.mdate < n.node.mdate)
+      if newer && !room.isAdmin n.node.author n.node.mdate then some (.error .notAuthorised)
+      else
+        let n1 : AuthNode :=
+          if newer then { n with node := { n.node with stored := true } }
+          else { n with node := o.node, needUpdate := false }
+        match prepareAuthWithHistory room o n1 with
+        | none => none
+        | some (.error e) => some (.error e)
+        | some (.ok (n2, u)) =>
+          mergeAuths room rest (replaceAuth o.node.id n2 cand) (upd || newer || u)
+
+def checkNewAuths (d : Defects) (room : RoomT) (old : List AuthNode) : List AuthNode → Except RErr Bool
+  | [] => .ok false
+  | a :: rest =>
+    if old.any (·.node.id = a.node.id) then checkNewAuths d room old rest
+    else if !room.isAdmin a.node.author a.node.mdate then .error .notAuthorised
+    else
+      match prepareNewAuth d room a with
+      | .error e => .error e
+      | .ok () =>
+        match checkNewAuths d room old rest with
+        | .error e => .error e
+        | .ok _ => .ok true
+
+/-- the placing references of a list bind every entry to it: one reference per entry, signed by the
+    entry's author, carrying the list's label and the owner's entity (the intended check) -/
+def placingOk (ownerEnt label : Nat) (edges : List PEdge) (nodes : List SRow) : Bool :=
+  nodes.all fun n => edges.any fun e => e.dst = n.id && e.author = n.author && e.label = label && e.srcEnt = ownerEnt
+
+def AuthNode.placingOk (a : AuthNode) : Bool :=
+  RoomNode.placingOk 101 33 a.rightEdges a.rightNodes && RoomNode.placingOk 101 34 a.userEdges a.userNodes &&
+  RoomNode.placingOk 101 35 a.userAdminEdges a.userAdminNodes
+
+def RoomNode.placingOk (r : RoomNode) : Bool :=
+  Discret.RoomNode.placingOk 100 32 r.adminEdges r.adminNodes &&
+  r.authNodes.all fun a =>
+    a.placingOk && r.authEdges.any fun e => e.dst = a.node.id && e.author = a.node.author && e.label = 33 && e.srcEnt = 100
+
+/-- `prepare_room_with_history`: `none` = the panic of `prepare_auth_with_history`;
+    otherwise the merged candidate and "has changes" -/
+def prepareWithHistory (d : Defects) (room : RoomT) (old cand : RoomNode) : Option (Except RErr (RoomNode × Bool)) :=
+  if !d.roomRowUnchecked &&
+     !(rowEq cand.node old.node ||
+       (old.node.mdate < cand.node.mdate && cand.node.ent = 100 && room.isAdmin cand.node.author cand.node.mdate)) then
+    some (.error .notAuthorised)
+  else
+  let aEdges := sortAsc (·.cdate) (mergeEdges old.adminEdges cand.adminEdges)
+  match mergeRows old.adminNodes cand.adminNodes with
+  | .error e => some (.error e)
+  | .ok a0 =>
+    let aNodes := sortAsc (·.mdate) a0
+    match checkNewAdmins old.adminNodes room aNodes with
+    | .error e => some (.error e)
+    | .ok room1 =>
+      let authEdges := mergeEdges old.authEdges cand.authEdges
+      match mergeAuths room1 old.authNodes cand.authNodes (aNodes.any (isNew old.adminNodes)) with
+      | none => none
+      | some (.error e) => some (.error e)
+      | some (.ok (auths, upd)) =>
+        match checkNewAuths d room1 old.authNodes auths with
+        | .error e => some (.error e)
+        | .ok upd2 =>
+          let merged : RoomNode :=
+            { node := { cand.node with stored := true }, adminEdges := aEdges, adminNodes := aNodes,
+              authEdges := authEdges, authNodes := auths }
+          match merged.parse with
+          | .error e => some (.error e)
+          | .ok _ => some (.ok (merged, upd || upd2))
+
+/-! ### tables, `RoomNode::read`, `RoomNode::write`, `add_room_node` -/
+
+/-- what the acceptance of a room definition reads and writes: the loaded rooms, `_node`, `_edge` -/
+structure RStore where
+  rooms : List RoomT
+  nodes : List SRow
+  edges : List PEdge
+deriving Repr, DecidableEq
+
+/-- `Node::get_with_entity`: the index (id, _entity, mdate) yields the row with the lowest date first,
+    the earliest stored among equal dates (ids are unique unless a definition re-used an id) -/
+def minByDate : List SRow → Option SRow
+  | [] => none
+  | n :: rest =>
+    match minByDate rest with
+    | some m => if m.mdate < n.mdate then some m else some n
+    | none => some n
+
+def findRow (nodes : List SRow) (id ent : Nat) : Option SRow :=
+  (minByDate (nodes.filter fun n => n.id = id && n.ent = ent)).map fun n => { n with stored := true }
+
+/-- `Edge::get_edges(src, label)`: the primary key order of `_edge` is (src, label, dest) -/
+def edgesFrom (edges : List PEdge) (src label : Nat) : List PEdge :=
+  sortAsc (fun e => (e.dst : Int)) (edges.filter fun e => e.src = src && e.label = label)
+
+/-- `sort_by(|a, b| b.cdate.cmp(&a.cdate))` -/
+def sortDesc (l : List PEdge) : List PEdge := sortAsc (fun e => -e.cdate) l
+
+/-- `AuthorisationNode::read` -/
+def readAuth (s : RStore) (id : Nat) : Option AuthNode :=
+  match findRow s.nodes id 101 with
+  | none => none
+  | some node =>
+    let re := sortDesc (edgesFrom s.edges id 33)
+    let ue := sortDesc (edgesFrom s.edges id 34)
+    let ae := sortDesc (edgesFrom s.edges id 35)
+    some { node, rightEdges := re, rightNodes := re.filterMap fun e => findRow s.nodes e.dst 103,
+           userEdges := ue, userNodes := ue.filterMap fun e => findRow s.nodes e.dst 102,
+           userAdminEdges := ae, userAdminNodes := ae.filterMap fun e => findRow s.nodes e.dst 102,
+           needUpdate := true }
+
+/-- `RoomNode::read` -/
+def readBack (s : RStore) (id : Nat) : Option RoomNode :=
+  match findRow s.nodes id 100 with
+  | none => none
+  | some node =>
+    let ae := sortDesc (edgesFrom s.edges id 32)
+    let ge := edgesFrom s.edges id 33
+    some { node, adminEdges := ae, adminNodes := ae.filterMap fun e => findRow s.nodes e.dst 102,
+           authEdges := ge, authNodes := ge.filterMap fun e => readAuth s e.dst }
+
+/-- `Node::write`: over the slot it was read from when it has one, appended otherwise -/
+def replaceFirst (nodes : List SRow) (target : SRow) (n : SRow) : List SRow :=
+  match nodes with
+  | [] => []
+  | x :: rest => if { x with stored := true } = target then n :: rest else x :: replaceFirst rest target n
+
+def writeRow (nodes : List SRow) (slotEnt : Nat) (n : SRow) : List SRow :=
+  if n.stored then
+    match findRow nodes n.id slotEnt with
+    | some t => replaceFirst nodes t { n with stored := false }
+    | none => nodes
+  else nodes ++ [n]
+
+/-- `UserNode::write` / `EntityRightNode::write`: only rows that are not stored yet -/
+def writeNewRows (nodes : List SRow) (l : List SRow) : List SRow :=
+  nodes ++ l.filter (!·.stored)
+
+/-- `INSERT OR REPLACE INTO _edge` -/
+def writeEdge (edges : List PEdge) (e : PEdge) : List PEdge :=
+  edges.filter (fun x => !(x.src = e.src && x.label = e.label && x.dst = e.dst)) ++ [e]
+
+def writeAuth (s : RStore) (a : AuthNode) : RStore :=
+  let n1 := if a.needUpdate then writeRow s.nodes 101 a.node else s.nodes
+  let e1 := a.rightEdges.foldl writeEdge s.edges
+  let n2 := writeNewRows n1 a.rightNodes
+  let e2 := a.userEdges.foldl writeEdge e1
+  let n3 := writeNewRows n2 a.userNodes
+  let e3 := a.userAdminEdges.foldl writeEdge e2
+  let n4 := writeNewRows n3 a.userAdminNodes
+  { s with nodes := n4, edges := e3 }
+
+/-- `RoomNode::write` -/
+def writeRoom (s : RStore) (r : RoomNode) : RStore :=
+  let n1 := writeRow s.nodes 100 r.node
+  let e1 := r.adminEdges.foldl writeEdge s.edges
+  let n2 := writeNewRows n1 r.adminNodes
+  let e2 := r.authEdges.foldl writeEdge e1
+  r.authNodes.foldl writeAuth { s with nodes := n2, edges := e2 }
+
+def installRoom (s : RStore) (room : RoomT) : RStore :=
+  if s.rooms.any (·.id = room.id) then { s with rooms := s.rooms.map fun r => if r.id = room.id then room else r }
+  else { s with rooms := s.rooms ++ [room] }
+
+inductive Verdict where
+  | ok (s : RStore)
+  | err (e : RErr)
+  /-- `expect` in `prepare_auth_with_history`: a stored group that is not loaded -/
+  | panic
+deriving Repr, DecidableEq
+
+/-- `verify_room_node` then `add_room_node` (read, `prepare_room_node`, write, parse, install) -/
+def accept (d : Defects) (s : RStore) (cand : RoomNode) : Verdict :=
+  if !cand.sigsOk then .err .signature
+  else if !cand.consistent then .err .inconsistent
+  else if !d.placingEdgeUnchecked && !cand.placingOk then .err .inconsistent
+  else
+    match s.rooms.find? (·.id = cand.node.id) with
+    | some room =>
+      match readBack s cand.node.id with
+      | none => .err .noHistory
+      | some old =>
+        match prepareWithHistory d room old cand with
+        | none => .panic
+        | some (.error e) => .err e
+        | some (.ok (merged, upd)) =>
+          if upd then
+            match merged.parse with
+            | .ok r => .ok (installRoom (writeRoom s merged) r)
+            | .error e => .err e
+          else .ok s
+    | none =>
+      match prepareNewRoom cand with
+      | .error e => .err e
+      | .ok r => .ok (installRoom (writeRoom s cand) r)
+
+/-- content tags of the rows of a room definition, as printed in table dumps -/
+def Body.tag : Body → Nat
+  | .user k en => 1000000 + 2 * k + (if en then 1 else 0)
+  | .right e ms ma => 2000000 + 4 * e + (if ms then 2 else 0) + (if ma then 1 else 0)
+  | .other n => n
+  | .none => 1000
+
+def Body.ofTag (t : Nat) : Body :=
+  if t = 1000 then .none
+  else if 2000000 ≤ t then .right ((t - 2000000) / 4) ((t - 2000000) % 4 / 2 = 1) ((t - 2000000) % 2 = 1)
+  else if 1000000 ≤ t then .user ((t - 1000000) / 2) ((t - 1000000) % 2 = 1)
+  else .other t
 
 end Discret.RoomNode
